@@ -303,7 +303,15 @@ func opEpoch(g *G) (interface{}, []uint64, int, interface{}) {
 	var err error
 	var pan interface{}
 	phase := ""
-	stream, consumed := withSeed(g.seed63(), func() {
+	// twin: half of the turnovers are repeated on a deep copy of the population through the PUBLIC entry point
+	// SequentialPopulationEpochExecutor.NextEpoch with the same seed (the phase hooks below call the three unexported
+	// methods NextEpoch is made of; whatever NextEpoch does beyond calling them in this order shows up as a difference)
+	var twinPop *genetics.Population
+	if g.chance(0.5) {
+		twinPop = clonePopDeep(sc.pop)
+	}
+	epochSeed := g.seed63()
+	stream, consumed := withSeed(epochSeed, func() {
 		defer func() { pan = recover() }()
 		phase = "prepare"
 		if err = genetics.VerifEpochPrepare(ex, ctx, sc.generation, sc.pop); err != nil {
@@ -322,6 +330,31 @@ func opEpoch(g *G) (interface{}, []uint64, int, interface{}) {
 		err = genetics.VerifEpochFinalize(ex, ctx, sc.pop)
 	})
 	out := map[string]interface{}{"err": errClass(err, pan), "phase": phase, "afterPrepare": afterPrepare, "sortedIds": sortedIds, "bestSpeciesId": bestId}
+	out["twin"] = "skipped"
+	if twinPop != nil {
+		var err2 error
+		var pan2 interface{}
+		_, consumed2 := withSeed(epochSeed, func() {
+			defer func() { pan2 = recover() }()
+			err2 = (&genetics.SequentialPopulationEpochExecutor{}).NextEpoch(ctx, sc.generation, twinPop)
+		})
+		ec := func(e error, p interface{}) string {
+			if c := errClass(e, p); c != nil {
+				return *c
+			}
+			return "ok"
+		}
+		switch {
+		case ec(err, pan) != ec(err2, pan2):
+			out["twin"] = "differs: NextEpoch ends with " + ec(err2, pan2) + ", the three phases with " + ec(err, pan)
+		case err == nil && pan == nil && consumed2 != consumed:
+			out["twin"] = fmt.Sprintf("differs: NextEpoch consumed %d random values, the three phases %d", consumed2, consumed)
+		case err == nil && pan == nil && popDigest(sc.pop) != popDigest(twinPop):
+			out["twin"] = "differs: population after NextEpoch is not the population after the three phases"
+		default:
+			out["twin"] = "same"
+		}
+	}
 	if err == nil && pan == nil {
 		out["after"] = dumpPop(sc.pop)
 		out["fresh"] = generationFresh(old, sc.pop)
@@ -338,6 +371,45 @@ func opEpoch(g *G) (interface{}, []uint64, int, interface{}) {
 		delete(scenarios, g.opName)
 	}
 	return in, stream, consumed, out
+}
+
+// clonePopDeep: an independent copy of a population as it stands between two turnovers (registry, counters, species
+// bookkeeping, organisms with their unexported state, genomes); phenotypes are rebuilt by NewOrganism
+func clonePopDeep(p *genetics.Population) *genetics.Population {
+	q := clonePopReg(p)
+	q.LastSpecies, q.WinnerGen, q.FinalGen = p.LastSpecies, p.WinnerGen, p.FinalGen
+	q.HighestFitness, q.EpochsHighestLastChanged = p.HighestFitness, p.EpochsHighestLastChanged
+	q.MeanFitness, q.Variance, q.StandardDev = p.MeanFitness, p.Variance, p.StandardDev
+	om := map[*genetics.Organism]*genetics.Organism{}
+	cl := func(o *genetics.Organism) *genetics.Organism {
+		if c, ok := om[o]; ok {
+			return c
+		}
+		gn := cloneGenome(o.Genotype)
+		c, err := genetics.NewOrganism(o.Fitness, gn, o.Generation)
+		if err != nil || c == nil {
+			c = &genetics.Organism{Fitness: o.Fitness, Genotype: gn, Generation: o.Generation}
+		}
+		c.Error, c.IsWinner, c.ExpectedOffspring, c.Flag = o.Error, o.IsWinner, o.ExpectedOffspring, o.Flag
+		genetics.VerifSetOrganismState(c, genetics.VerifOrganismState_(o))
+		om[o] = c
+		return c
+	}
+	for _, o := range p.Organisms {
+		q.Organisms = append(q.Organisms, cl(o))
+	}
+	for _, s := range p.Species {
+		t := genetics.NewSpeciesNovel(s.Id, s.IsNovel)
+		t.Age, t.MaxFitnessEver, t.ExpectedOffspring = s.Age, s.MaxFitnessEver, s.ExpectedOffspring
+		t.AgeOfLastImprovement, t.IsChecked = s.AgeOfLastImprovement, s.IsChecked
+		for _, o := range s.Organisms {
+			c := cl(o)
+			c.Species = t
+			t.Organisms = append(t.Organisms, c)
+		}
+		q.Species = append(q.Species, t)
+	}
+	return q
 }
 
 func opSpawn(g *G) (interface{}, []uint64, int, interface{}) {
